@@ -470,7 +470,8 @@ def check(pid, tier, seed):
         "distinct_nontrivial": dn,
         "rule": cfg.get("rule", ""),
         "samples": samples or ["(no cases)"],
-        "exhaustive": bool(cfg.get("exhaustive", False)),
+        "exhaustive": bool(cfg["exhaustive"].get(tier, False)) if isinstance(cfg.get("exhaustive"), dict)
+        else bool(cfg.get("exhaustive", False)),
         "model_disagreements": sum(r.get("D_count", 0) for r in runs),
         "oracle_failures": sum(r.get("F_count", 0) for r in runs),
         "known_finding_cases": sum(known_hits.values()),
